@@ -47,6 +47,7 @@ func init() {
 										// or the command value was used before by a client whose start failed
 										cells = append(cells, P("auto", auto, "mux", mux, "skip", skip, "launch", launch, "ambient", amb, "proto", proto, "cmdenv", "environ"))
 										cells = append(cells, P("auto", auto, "mux", mux, "skip", skip, "launch", launch, "ambient", amb, "proto", proto, "second", "1"))
+										cells = append(cells, P("auto", auto, "mux", mux, "skip", skip, "launch", launch, "ambient", amb, "proto", proto, "second", "2"))
 									}
 								}
 							}
@@ -235,6 +236,19 @@ func runC17(r *h.Run) {
 			r.Violate("setup", "client A launched the plugin "+ctx, "")
 			return
 		}
+	}
+	if sp.P("second", "") == "2" {
+		// another plugin was launched, used and killed by this host before: the
+		// host's stdin is only lent to a plugin, the next one gets it all the same
+		ctx += " after-another-client-was-killed"
+		ca := h.Conf{Proto: proto, Launch: launch, Name: "earlier", Path: "/bin/earlier"}
+		r.InstallPlugin(&ca)
+		a := r.NewClient(ca)
+		if ao := r.DoNoHang("A.Client", 90*time.Second, ctx, func() (any, error) { return a.Client() }); ao.Err != nil || ao.Hung {
+			r.Violate("setup", "earlier client "+ctx, fmt.Sprint(ao.Err))
+			return
+		}
+		r.DoNoHang("A.Kill", 120*time.Second, ctx, func() (any, error) { a.Kill(); return nil, nil })
 	}
 	cl := r.NewClient(c)
 	o := r.DoNoHang("Start", 90*time.Second, ctx, func() (any, error) { return cl.Start() })
